@@ -29,7 +29,7 @@ Mult(k, lo, hi) == {k * i : i \in lo..hi}
 
 Workloads == {"aes", "atax", "bfs", "bicg", "bitonicsort", "concurrentkernel", "concurrentworkload", "conv2d",
               "fastwalshtransform", "fft", "fir", "floydwarshall", "im2col", "kmeans", "matrixmultiplication",
-              "matrixtranspose", "memcopy", "nbody", "nw", "pagerank", "relu", "simpleconvolution", "spmv",
+              "matrixtranspose", "memcopy", "nbody", "nw", "overlapcopy", "pagerank", "relu", "simpleconvolution", "spmv",
               "stencil2d", "vectoradd", "xor"}
 
 \* not runnable here: lenet, minerva, vgg16 need the MNIST / ImageNet data sets, which the repository does not ship
@@ -44,7 +44,7 @@ Names == [aes |-> <<"length">>, atax |-> <<"x", "y">>, bfs |-> <<"node", "degree
           im2col |-> <<"N", "C", "H", "W", "kh", "kw", "padx", "pady", "stridex", "stridey", "dilatex", "dilatey">>,
           kmeans |-> <<"points", "clusters", "features", "maxiter">>, matrixmultiplication |-> <<"x", "y", "z">>,
           matrixtranspose |-> <<"width">>, memcopy |-> <<"bytes">>, nbody |-> <<"particles", "iter">>,
-          nw |-> <<"length">>, pagerank |-> <<"node", "sparsitypm", "iterations">>, relu |-> <<"length">>,
+          nw |-> <<"length">>, overlapcopy |-> <<"length", "taps", "chunks">>, pagerank |-> <<"node", "sparsitypm", "iterations">>, relu |-> <<"length">>,
           simpleconvolution |-> <<"width", "height", "mask">>, spmv |-> <<"dim", "sparsitypm">>,
           stencil2d |-> <<"row", "col", "iter">>, vectoradd |-> <<"width", "height">>, xor |-> <<>>]
 
@@ -77,6 +77,7 @@ Gen(w) ==
     [] w = "memcopy" -> {<<b>> : b \in 1..70000}
     [] w = "nbody" -> {<<pt, it>> : pt \in 1..600, it \in 1..3}             \* clamped to a multiple of 256 (>= 256) by Run
     [] w = "nw" -> {<<l>> : l \in Mult(64, 1, 3)}
+    [] w = "overlapcopy" -> {<<l, t, c>> : l \in Mult(256, 1, 32), t \in 1..64, c \in 1..8}   \* harness program (sysrun/overlap.go)
     [] w = "pagerank" -> {<<n, s, it>> : n \in 2..64, s \in Mult(50, 2, 20), it \in 1..3}
     [] w = "relu" -> {<<l>> : l \in 1..4200}
     [] w = "simpleconvolution" -> {<<wd, h, m>> : wd \in 2..100, h \in 2..100, m \in {1, 3, 5}}
@@ -126,6 +127,7 @@ InDom(w, p) ==
        [] w = "memcopy" -> In(p[1], 1, 70000)
        [] w = "nbody" -> In(p[1], 1, 600) /\ In(p[2], 1, 3)
        [] w = "nw" -> InMult(p[1], 64, 1, 3)
+       [] w = "overlapcopy" -> InMult(p[1], 256, 1, 32) /\ In(p[2], 1, 64) /\ In(p[3], 1, 8)
        [] w = "pagerank" -> In(p[1], 2, 64) /\ InMult(p[2], 50, 2, 20) /\ In(p[3], 1, 3)
        [] w = "relu" -> In(p[1], 1, MaxBoundaryWG * 64)
        [] w = "simpleconvolution" -> In(p[1], 2, 100) /\ In(p[2], 2, 100) /\ p[3] \in {1, 3, 5}
@@ -196,17 +198,17 @@ ASSUME 65 \in BoundaryCounts(2, 64) /\ 129 \in BoundaryCounts(2, 64) /\ {65, 129
 ASSUME ShareOf(2, 64, 65, 2) = 1 /\ ShareOf(2, 64, 64, 2) = 0 /\ ShareOf(4, 64, 193, 4) = 1 /\ ShareOf(4, 2, 9, 3) = 1
 
 \* SelectGPU refuses more than one GPU
-SingleGPU == {"bfs", "nw", "conv2d", "im2col", "memcopy", "xor"}
+SingleGPU == {"bfs", "nw", "conv2d", "im2col", "memcopy", "xor", "overlapcopy"}
 \* every queue would run the whole transform on the same buffer: not a multi-GPU program
 NotMultiGPU == {"fastwalshtransform"}
 \* the gfx942 kernels take no global offset: only these do not depend on it in plain multi-GPU mode
 \* (cases.go: "Multi-GPU support via unified GPU mode" for CDNA3)
 NoOffsetSplit == {"atax", "bicg", "fft", "floydwarshall", "nbody", "pagerank", "spmv", "stencil2d", "matrixtranspose"}
-NoUnifiedMem == {"xor", "concurrentkernel", "concurrentworkload"}
+NoUnifiedMem == {"xor", "concurrentkernel", "concurrentworkload", "overlapcopy"}
 
 Archs(w) ==
   CASE w = "vectoradd" -> {"cdna3"}                                         \* only a gfx942 binary is shipped
-    [] w \in {"xor", "memcopy", "concurrentkernel", "concurrentworkload"} -> {"gcn3"}
+    [] w \in {"xor", "memcopy", "concurrentkernel", "concurrentworkload", "overlapcopy"} -> {"gcn3"}
     [] OTHER -> {"gcn3", "cdna3"}
 
 Classes == [mode : {"emu", "timing"}, gpu : {"none", "r9nano", "mi300a"}, arch : {"gcn3", "cdna3"},
@@ -276,6 +278,7 @@ SizeClasses(w) ==
     [] w = "memcopy" -> <<<<100>>, <<4096>>, <<65636>>>>
     [] w = "nbody" -> <<<<256, 1>>, <<512, 1>>, <<300, 2>>>>
     [] w = "nw" -> <<<<64>>, <<128>>>>
+    [] w = "overlapcopy" -> <<<<4096, 32, 8>>, <<2048, 16, 4>>, <<4096, 48, 3>>>>
     [] w = "pagerank" -> <<<<16, 500, 2>>, <<20, 300, 3>>, <<64, 500, 2>>>>
     [] w = "relu" -> <<<<1024>>, <<1000>>, <<4100>>>>
     [] w = "simpleconvolution" -> <<<<62, 62, 3>>, <<30, 50, 3>>, <<64, 64, 5>>, <<33, 17, 1>>>>
